@@ -82,6 +82,7 @@ type World struct {
 	abort   bool
 
 	// OrderFn supplies the seeded permutation for rule R2b.
+	MapOrderFn func(site string, n int) []int // seeded permutation for a map range with n keys (nil: sorted order)
 	OrderFn func(site string, n int) []int
 	// Tracked objects (R5), in creation order.
 	tracked []Tracked
@@ -745,4 +746,40 @@ func SortedKeys[M ~map[K]V, K interface {
 	}
 	sort.Slice(ks, func(i, j int) bool { return ks[i] < ks[j] })
 	return ks
+}
+
+// RangeKeys returns the keys of m in the order this run iterates them (rule
+// R6): sorted, then permuted by the seeded scheduler (MapOrderFn) in lock-step
+// mode, so that Go's randomised map iteration order is one more recorded,
+// replayable choice instead of a hidden source of nondeterminism - and is not
+// silently pinned to one friendly order either.
+func RangeKeys[M ~map[K]V, K interface {
+	~int | ~int32 | ~int64 | ~uint | ~uint32 | ~uint64 | ~string
+}, V any](site string, m M) []K {
+	ks := SortedKeys(m)
+	if len(ks) < 2 || mode.Load() != Lockstep {
+		return ks
+	}
+	w := world.Load()
+	if w == nil || w.MapOrderFn == nil || w.current() == nil {
+		return ks
+	}
+	w.mu.Lock()
+	ab := w.abort
+	w.mu.Unlock()
+	if ab {
+		return ks
+	}
+	p := w.MapOrderFn(site, len(ks))
+	if len(p) != len(ks) {
+		return ks
+	}
+	out := make([]K, len(ks))
+	for i, j := range p {
+		if j < 0 || j >= len(ks) {
+			return ks
+		}
+		out[i] = ks[j]
+	}
+	return out
 }
